@@ -13,12 +13,14 @@ dele="delete event (sent by the service, or derived from a system.notFound answe
 for pp in ["C01","C02","C08","C09"]:
     add(pp, r"^after-delete:", dele)
 add("C11", r"^C0[79]:after-delete:", dele)
+add("C03", r"^C01:after-delete:", dele)
 add("C07", r"^after-delete:", dele)
 add("C13", r"^C0[137]:after-delete:", dele)
 add("C19", r"^C0[167]:after-delete:", dele)
 uns="a resource whose last sent parent goes away while a still loading parent references it is reset to unsent (Subscription.Unsend) and later sent again from the snapshot taken when it was first loaded: events processed in between are missing from that snapshot (stale client copy) and events arriving while it is unsent are sent to a client that no longer holds it; in reference cycles the decision itself goes wrong (the collector takes the sentness of the released root for every node below it: a member that another still-sent member references is reset to unsent, or a member below an unsent one keeps being counted as sent), so that a later response leaves out a resource the client has dropped"
 for pp in ["C01","C02","C03"]:
     add(pp, r"^after-unsend:", uns)
+add("C03", r"^C01:after-unsend:", uns)
 add("C12", r"^C0[123]:after-unsend:", uns)
 add("C13", r"^C0[13]:after-unsend:", uns)
 add("C19", r"^C01:after-unsend:", uns)
